@@ -331,7 +331,7 @@ func step(cut *lab.CUT, p *peerkit.PeerConn, tx []peerkit.Frame, names []string,
 	return st, ok
 }
 
-// c08F1Gated reproduces known finding F1 deterministically for the scripted-peer view: the supervisor goroutine is parked
+// c08F1Gated provokes finding F1 (fixed by cbc5287) deterministically for the scripted-peer view: the supervisor goroutine is parked
 // (verif gate sup.step.loaded) while the receive goroutine commits the peer's Select.req AND the Deselect.req that
 // follows it (two sup.commit.cas gates after arming), then released: it now applies the stale echo of the Select after
 // the Deselect commit. The scenario is recorded like any other burst and judged by the same transducer.
@@ -459,7 +459,7 @@ func runC08(args []string) int {
 		}
 		seqs = append(seqs, q)
 	}
-	hasF1Pattern := func(q []sym) bool { // a Select followed later by a Deselect in one burst (known finding F1: racy)
+	hasF1Pattern := func(q []sym) bool { // a Select followed later by a Deselect in one burst (the shape of finding F1; counted)
 		sel := false
 		for _, s := range q {
 			if s == symSelectReq || s == symSelectReqOtherSid {
@@ -472,6 +472,7 @@ func runC08(args []string) int {
 		return false
 	}
 	faults := 0
+	f1Bursts := 0
 	id := 0
 	if *pipeline {
 		for _, passive := range []bool{true, false} {
@@ -505,7 +506,7 @@ func runC08(args []string) int {
 			close(jobs)
 			wg.Wait()
 		}
-		for k := 0; k < 2; k++ { // known finding F1, reproduced deterministically with gates
+		for k := 0; k < 2; k++ { // finding F1 (fixed by cbc5287), provoked deterministically with gates
 			w.Emit(c08F1Gated(900000+k, *pipeline))
 		}
 		if err := w.Close(); err != nil {
@@ -542,7 +543,10 @@ func runC08(args []string) int {
 					}
 				}
 			}
-			if len(q) >= 2 && !f1 {
+			if len(q) >= 2 {
+				if f1 {
+					f1Bursts++
+				}
 				id++
 				jobs <- c08Scenario{id: id, mode: "burst", syms: q, split: 1 + r.Intn(3), selRspStatus: sel}
 			}
@@ -550,14 +554,14 @@ func runC08(args []string) int {
 		close(jobs)
 		wg.Wait()
 	}
-	for k := 0; k < 2; k++ { // known finding F1, reproduced deterministically with gates
+	for k := 0; k < 2; k++ { // finding F1 (fixed by cbc5287), provoked deterministically with gates
 		w.Emit(c08F1Gated(900000+k, *pipeline))
 	}
 	if err := w.Close(); err != nil {
 		fmt.Fprintln(os.Stderr, err)
 		return 2
 	}
-	b, _ := json.Marshal(map[string]int{"lines": w.N, "faults": faults})
+	b, _ := json.Marshal(map[string]int{"lines": w.N, "faults": faults, "select_deselect_bursts": f1Bursts})
 	fmt.Println(string(b))
 	return 0
 }
